@@ -141,6 +141,47 @@ class C05Bounded(Bounded):
                 escapes_backslash = bool(cfg["field_escape_pattern"].search("\\"))
                 if d != nm and (escapes_backslash or "\\" not in nm):
                     fail("field", f"field name {nm!r} rendered as {out!r} under config {ci}, which decodes to {d!r}", [nm, ci])
+        # regular expressions: the escaped form, read back by the target (escape character + escaped sequence = that sequence), is the source
+        def rx_dec(t, seqs, esc):
+            out, i = "", 0
+            while i < len(t):
+                hit = next((q for q in seqs if t.startswith(esc + q, i)), None) if t.startswith(esc, i) else None
+                if hit is not None:
+                    out += hit
+                    i += len(esc) + len(hit)
+                else:
+                    out += t[i]
+                    i += 1
+            return out
+
+        def rx_bare(t, seqs, esc):
+            """positions where an escaped sequence stands in the output without the escape character in front (scanning left to right)"""
+            i = 0
+            while i < len(t):
+                if t.startswith(esc, i) and any(t.startswith(esc + q, i) for q in seqs):
+                    i += len(esc) + len(next(q for q in seqs if t.startswith(esc + q, i)))
+                elif any(t.startswith(q, i) for q in seqs if q != esc):
+                    return i
+                else:
+                    i += 1
+            return None
+        from sigma.exceptions import SigmaRegularExpressionError
+        rx_strings = ["".join(t) for n in range(1, (5 if tier == "quick" else 6)) for t in itertools.product("a/\\|", repeat=n)]
+        rx_cfgs = [((), "\\", True), (("/",), "\\", True), (("/",), "\\", False), (("/", "|"), "\\", True), (("a/",), "\\", True), (("|",), "\\", False), (("/",), "!", True)]
+        for src in rx_strings:
+            try:
+                rxo = SigmaRegularExpression(src)
+            except SigmaRegularExpressionError:
+                continue
+            for seqs, esc, ee in rx_cfgs:
+                ev += 1
+                out = rxo.escape(seqs, esc, ee, False)
+                pairs = list(seqs) + ([esc] if ee else [])
+                back = rx_dec(out, pairs, esc)
+                if back != src:
+                    fail("regex-escape", f"regular expression {src!r} escaped with sequences {seqs}, escape character {esc!r}, escape_escape_char={ee} gives {out!r}, which the target reads back as {back!r}", [src, list(seqs), esc, ee])
+                elif rx_bare(out, pairs, esc) is not None:
+                    fail("regex-escape", f"regular expression {src!r} escaped with sequences {seqs}, escape character {esc!r}, escape_escape_char={ee} gives {out!r}: unescaped sequence at position {rx_bare(out, pairs, esc)}", [src, list(seqs), esc, ee])
         # regex flag prefix is independent of set iteration order
         fl = list(SigmaRegularExpressionFlag)
         for perm in itertools.permutations(fl):
